@@ -49,6 +49,8 @@ def _fmt(a) -> str:
                 return f"{_fmt(a[1])}({', '.join(args)})"
             if tag == "obj":
                 return f"<{a[1]}@{a[2]}>"
+            if tag == "local":
+                return f"${a[1]}" + (f"'{a[2]}" if a[2] else "")
             if tag == "parity":
                 return f"S({_fmt(a[1])})"
             if tag == "str":
